@@ -184,6 +184,7 @@ PROPS["C16"] = {
         "str::find::<char> is stubbed by a plain scan with the same contract (kv/harness/printer/strlex.rs str_find_char); the crate is compiled with -Zcrate-attr=feature(pattern) so that the stub can name the Pattern bound",
         "alloc::fmt::format is stubbed to return the text `\\u{1}` and the only control character in the input alphabet is U+0001 (the one value for which that is what format! produces)",
         "input alphabets: see bounds; strings are valid UTF-8 built with char::encode_utf8",
+        "thorough tier, JsStringWriter: <CharSearcher as Searcher>::next_match (behind str::split) is stubbed by a plain scan that reads the searcher through a mirror struct (validated by char_searcher_layout_witness in C06's thorough tier); the writer's own empty indent String is swapped for an explicitly empty one before drop (Kani String::new() artefact)",
         "Kani/CBMC/cadical are sound; rustc MIR is the semantics of the source",
     ],
     "outside": "every GraphQLPrinter impl in ast.rs/base.rs/schema.rs (types, fields, arguments, directives, dropped variable defaults), remove_builtins, plugin transforms, re-parsing with nitrogql's own parser",
